@@ -86,6 +86,10 @@ def reinserted(c, mode="reversed"):
         order = names[::-1]
     elif mode == "sinks-first":
         order = list(c.graph.topo())[::-1] if c.graph.is_dag() else names[::-1]
+    elif mode in ("interleaved-a", "interleaved-b"):
+        # neither drivers-first nor loads-first along a path: every second node of a topological order, then the others
+        t = list(c.graph.topo()) if c.graph.is_dag() else names
+        order = t[1::2] + t[0::2] if mode == "interleaved-a" else t[0::2][::-1] + t[1::2]
     else:
         raise ValueError(mode)
     d = RefCircuit(name=c.name)
